@@ -6,8 +6,8 @@ import os
 import subprocess
 import sys
 
-SCRATCH = "/work/repo-R-C16"
-VERIF = os.path.dirname(os.path.dirname(os.path.abspath(__file__)))
+SCRATCH = os.environ.get("C16_SCRATCH", "/work/repo-R-C16")
+VERIF = os.environ.get("C16_VERIF", os.path.dirname(os.path.dirname(os.path.abspath(__file__))))
 D = "src/soundevent/arrays/dimensions.py"
 O = "src/soundevent/arrays/operations.py"
 
